@@ -1,4 +1,4 @@
-/- GENERATED on every run by harness/pygen_pxupdate.py:extract_update (called by harness/props/c15.py:extract) from avocado_i2n/intertest_setup.py — do not edit.
+/- GENERATED on every run by harness/pygen_pxupdate.py:extract_update (called by harness/props/c15.py:extract) from avocado_i2n/intertest_setup.py and avocado_i2n/cartgraph/graph.py — do not edit.
    Translator: harness/pygen.py (Python AST -> Lean `do` block, fails closed).  The equality with the hand
    written model is proved in the Props file that imports this module. -/
 import I2N.Lemmas.ToolsUpdate
@@ -151,5 +151,54 @@ def genUpdate (env : UEnv) (vms workers : List String) : StateT Flagged (Except 
 /-- `for node1 in graph.nodes: for node2 in graph.nodes: <genBridgePair>`: ALL ordered pairs of nodes -/
 def genBridgeAll (ns : List BNode) : StateT I2N.Index.Bridging (Except Err) Unit :=
   (List.range ns.length).forM fun node1 => (List.range ns.length).forM fun node2 => genBridgePair ns node1 node2
+
+/-- `flag_type` as the callers pass it (`update` passes the literals "run" / "clean"; anything but "run" sets the
+clean policy) -/
+def flagTypeStr : FlagType → String | .run => "run" | .clean => "clean"
+
+/-- ONE iteration of the loop of `TestGraph.flag_intersection` (avocado_i2n/cartgraph/graph.py) for the node with index `test_node`: `otherNames` = the names of the other graph's nodes, the regular expression `<setless form>$` is the hand recogniser `endsWithStr` (validated per run by the C15 correspondence), `p` = the policy `flag` installs; `continue` = leaving the body -/
+def genFlagIntersectionStep (g : UGraph) (otherNames : List String) (ty : FlagType) (p : Pol) (skip_object_roots : Bool) (skip_shared_root : Bool) (test_node : Nat) : StateT Flags (Except Err) (Unit) := do
+  let mut matching_nodes : List String := (otherNames.filter (fun nm => endsWithStr nm (g.node test_node).setless))
+  if ((Int.ofNat matching_nodes.length) == (0 : Int)) then
+    return ()
+  else if (decide ((Int.ofNat matching_nodes.length) > (1 : Int))) then
+    throw Err.valueError
+  if ((g.node test_node).sharedRoot && skip_shared_root) then
+    return ()
+  if ((!(g.node test_node).objectRoot.isEmpty) && skip_object_roots) then
+    return ()
+  if ((flagTypeStr ty) == "run") then
+    modify (fun f => f.set .run p test_node)
+  else
+    modify (fun f => f.set .clean p test_node)
+  return ()
+
+/- the Python it was generated from (comments and docstring dropped):
+   def flag_intersection_step(test_node):
+       matching_nodes = graph.get_nodes(param_key='name', param_val=test_node.setless_form + '$')
+       if len(matching_nodes) == 0:
+           logging.debug(f'Skip flag for non-overlapping {test_node}')
+           continue
+       elif len(matching_nodes) > 1:
+           raise ValueError(f'Cannot map {test_node} into a unique test node from {graph}')
+       if test_node.is_shared_root() and skip_shared_root:
+           logging.info('Skip flag for shared root')
+           continue
+       if test_node.is_object_root() and skip_object_roots:
+           logging.info('Skip flag for object root')
+           continue
+       logging.debug(f'The test {test_node} is assigned custom {activity} policy')
+       if flag_type == 'run':
+           test_node.should_run = flag.__get__(test_node)
+       else:
+           test_node.should_clean = flag.__get__(test_node)
+-/
+
+/-- `for test_node in self.nodes: <genFlagIntersectionStep>` (matched structurally: exactly this loop, no `else`, no
+`break` / `return`; the two statements in front of it only feed log lines and are pinned) -/
+def genFlagIntersection (g : UGraph) (otherNames : List String) (ty : FlagType) (p : Pol)
+    (skip_object_roots skip_shared_root : Bool) : StateT Flags (Except Err) Unit :=
+  (List.range g.nodes.length).forM fun test_node =>
+    genFlagIntersectionStep g otherNames ty p skip_object_roots skip_shared_root test_node
 
 end I2N.Extracted.GenUpdate
